@@ -153,6 +153,21 @@ def get_attr(I, obj, attr, node, frame=None):
         I.oos(node, f"class attribute {obj.t}.{attr}")
     if k == 'ext':
         return I.registry.ext_attr(I, obj, attr, node)
+    if k == 'pkgmod':
+        r = I.registry.resolve_global(I, attr, I.registry.global_frame(I, obj.t))
+        if r is None:
+            I.oos(node, f"module attribute {obj.t}.{attr}")
+        return r
+    if k == 'valobj':
+        if attr in obj.t['attrs']:
+            return obj.t['attrs'][attr]
+        I.raise_('AttributeError', node)
+    if k == 'super':
+        from .calls import method_of_super
+        r = method_of_super(I, obj, attr, node)
+        if r is None:
+            I.oos(node, f"super().{attr}")
+        return r
     # parsed parameter values
     if attr == 'raw_value' and obj.extra and ('raw' in obj.extra or 'rawterm' in obj.extra):
         if 'raw' in obj.extra:
